@@ -98,7 +98,7 @@ def loadable(fn):
 
 # --------------------------------------------------------------------------- TLC DocGen
 def _spec_hash():
-    return _sha(*[_file_bytes(os.path.join(vlib.SPEC, f)) for f in ('MapWalk.tla', 'DocGen.tla')])
+    return _sha(*[_file_bytes(os.path.join(vlib.SPEC, f)) for f in ('MapWalk.tla', 'DocGen.tla', 'XmlOut.tla')])
 
 
 def gen_docs(fn, cap=2, maxdepth=60, timeout=1500, mode='bfs', num=200, seed=0):
@@ -109,7 +109,7 @@ def gen_docs(fn, cap=2, maxdepth=60, timeout=1500, mode='bfs', num=200, seed=0):
     if os.path.exists(cp):
         with open(cp) as f:
             return json.load(f)
-    cfg = 'SPECIFICATION GSpec\nCONSTANTS Cap = %d\n MaxDepth = %d\nINVARIANT NoErr\nINVARIANT EmitDoc\n' % (cap, maxdepth)
+    cfg = 'SPECIFICATION GSpec\nCONSTANTS Cap = %d\n MaxDepth = %d\nINVARIANT NoErr\nINVARIANT EmitDoc\nINVARIANT XmlNote\n' % (cap, maxdepth)
     if mode == 'bfs':
         cfg += 'VIEW GView\n'
         res = vlib.run_tlc('DocGen', cfg, env={'MAP_FILE': skel}, workers=1, timeout=timeout, heap='3g', tag='docgen')
@@ -132,7 +132,7 @@ def gen_docs(fn, cap=2, maxdepth=60, timeout=1500, mode='bfs', num=200, seed=0):
         if k not in vs:
             vs.add(k)
             viol.append(v)
-    out = {'file': fn, 'docs': docs, 'viol': viol, 'distinct': res.distinct, 'generated': res.generated, 'depth': res.depth, 'wall': res.wall}
+    out = {'file': fn, 'docs': docs, 'viol': viol, 'xmldiff': len(res.payloads.get('XMLDIFF', [])), 'distinct': res.distinct, 'generated': res.generated, 'depth': res.depth, 'wall': res.wall}
     os.makedirs(CACHE, exist_ok=True)
     with open(cp + '.tmp', 'w') as f:
         json.dump(out, f)
